@@ -9,7 +9,7 @@
 (* PARAMS (environment) = JSON file: labdep (the REAL dependency matrix of the alphabet, logged by the driver),         *)
 (* labactor, maxn, mode ("exh": BFS over every valid unfolding of <= maxn events up to reordering; "sample": random     *)
 (* unfoldings for -simulate), fullupto (all 2^n subsets examined when n <= fullupto), nsub, npairs, emitfrom, fmask    *)
-(* (filter of the filtered iteration), slicefrom/slices/slice (see Selected).                                          *)
+(* (filter of the filtered iteration), slicefrom/slices/slice (see Selected), lemmaupto (see Lemmas).                  *)
 (* Sets of events are printed as bit masks (event i = bit i-1).                                                          *)
 EXTENDS Unfolding, SequencesExt, Json, IOUtils, Randomization
 
@@ -130,8 +130,8 @@ Selected == IF Params.mode = "exh"
             ELSE (u.n % 3 = 0 \/ u.n = MaxN)
 Emit == (u.n >= Params.emitfrom /\ Selected) => PrintT(ToJson(CaseSheet))
 
-\* lemmas about the definitions, checked on every generated unfolding of at most 5 events
-Lemmas == u.n <= 5 =>
+\* lemmas about the definitions, checked on every generated unfolding of at most Params.lemmaupto events
+Lemmas == u.n <= Params.lemmaupto =>
   /\ LemmaClosure(u)
   /\ LemmaConflictSym(u, LabDep)
   /\ LemmaNearOnClosed(u, LabDep)
